@@ -1,8 +1,8 @@
-From GD Require Import C08.Token C08.TokSpec C08.Standards Gen.Gates C08.GatesDefs C08.Names C08.LitSpec C08.Literal C08.Callback C08.LineSpec.
+From GD Require Import C08.Token C08.TokSpec C08.Standards Gen.Gates C08.GatesDefs C08.Names C08.LitSpec C08.Literal C08.Callback C08.LineSpec C08.ParseImpl.
 Require Import ExtrOcamlBasic.
 Extraction Language OCaml.
 Extraction "model.ml" tokenise strtok_all tok_impl tok_line tok_spec MAX_IN_COLS
   all_gnames code_gate spec_gate code_applies spec_applies
   validate_field spec_name_ok
   toktonum set_scalar spec_is_number g_float g_int spec_int_value lit_base split_first
-  fragment_run spec_line.
+  fragment_run spec_line impl_line.
